@@ -219,6 +219,22 @@ class Frame:
         self.yielded = None       # generator output collector (python list) or None
 
 
+class WriteLog(list):
+    """heap/local writes of one loop iteration; remembers the logs of nested loops merged into it"""
+
+    def __init__(self):
+        super().__init__()
+        self.children = set()
+
+    def merge(self, inner):
+        self.extend(inner)
+        self.children.add(id(inner))
+        self.children |= getattr(inner, "children", set())
+
+    def owns(self, born):
+        return born is self or id(born) in self.children
+
+
 class Undefined:
     def __init__(self, why):
         self.why = why
@@ -377,6 +393,7 @@ class Ex:
         self.covers = set()
         self.notes = []
         self.nofork = 0
+        self.defs = []               # definitional equations usable as rewrite rules: (guard|None, lhs, rhs)
         self.used_uf = {}            # name -> (FuncDecl, python impl) of unary str functions in use
         self._inst_done = set()
         from . import models
@@ -483,11 +500,32 @@ class Ex:
             self.obligations.append(Obligation(oid, "discharged", detail or "trivial", 0.0, path))
             return True
         neg = z3.Not(f)
-        # fast path: incremental solver; then a fresh one-shot solver (stronger preprocessing); then cvc5
+        # fast path: incremental solver; then the cone of influence of the goal; then a fresh
+        # one-shot solver on everything (stronger preprocessing); then cvc5
         r = self._check([neg], min(2500, self.VC_TIMEOUT_MS))
         backend = "z3"
         model = None
+        candidate = None
         size = len(self.solver.sexpr()) + len(neg.sexpr())
+        if r == z3.unknown:
+            sl = _slice(list(self.solver.assertions()), neg)
+            s1 = z3.Solver()
+            s1.set("timeout", 5000)
+            s1.add(sl)
+            s1.add(neg)
+            r1 = s1.check()
+            if r1 == z3.unsat:
+                r, backend = z3.unsat, "z3-sliced"      # a subset of the hypotheses already suffices
+            elif r1 == z3.sat:
+                candidate = self._model_of(s1.model())  # not a refutation: only part of the hypotheses
+        if r == z3.unknown:
+            from .solve import cvc5_check
+            r2, txt = cvc5_check(self.solver, [neg], timeout_s=min(10, self.VC_TIMEOUT_MS // 1000), want_model=True)
+            if r2 in ("unsat", "sat"):
+                backend = "cvc5"
+                r = z3.unsat if r2 == "unsat" else z3.sat
+                if r2 == "sat":
+                    model = {"cvc5_model": txt, "candidate_from_sliced_query": candidate}
         if r == z3.unknown:
             s2 = z3.Solver()
             s2.set("timeout", self.VC_TIMEOUT_MS)
@@ -495,19 +533,17 @@ class Ex:
             s2.add(neg)
             r = s2.check()
             backend = "z3-oneshot"
-        if r == z3.unknown:
-            from .solve import cvc5_check
-            r2 = cvc5_check(self.solver, [neg], timeout_s=self.VC_TIMEOUT_MS // 1000)
-            if r2 in ("unsat", "sat"):
-                backend = "cvc5"
-                r = z3.unsat if r2 == "unsat" else z3.sat
+            if r == z3.sat:
+                model = self._model_of(s2.model())
         if r == z3.unsat:
             st = "discharged"
         elif r == z3.sat:
             st = "refuted"
-            model = self._extract_model(neg) if backend.startswith("z3") else {"note": "refuted by cvc5; no model extracted"}
+            if model is None:
+                model = self._extract_model(neg)
         else:
             st = "unknown"
+            model = {"candidate_from_sliced_query": candidate} if candidate else None
         ob = Obligation(oid, st, detail or str(fs)[:300], time.time() - t0, path, model, backend, size)
         self.obligations.append(ob)
         if st == "discharged":
@@ -556,6 +592,121 @@ class Ex:
 
     def cover(self, label):
         self.covers.add(label)
+
+    # -- definitional unfolding and structured sequence equalities -------------
+    def assume_def(self, f):
+        """Assume an instance of a spec-function definition and remember it as a rewrite rule."""
+        self.assume(f, "definitional unfolding")
+        g, eq = (f.arg(0), f.arg(1)) if z3.is_implies(f) else (None, f)
+        if z3.is_eq(eq) and eq.arg(0).decl().kind() == z3.Z3_OP_UNINTERPRETED and eq.arg(0).num_args() > 0:
+            self.defs.append((g, eq.arg(0), eq.arg(1)))
+
+    def _note_var_def(self, f):
+        """an assumed invariant `fresh_var == term` doubles as a rewrite rule"""
+        if z3.is_eq(f) and f.arg(0).num_args() == 0 and f.arg(0).decl().kind() == z3.Z3_OP_UNINTERPRETED:
+            self.defs.append((None, f.arg(0), f.arg(1)))
+
+    def expand_defs(self, t):
+        for _ in range(3):
+            changed = False
+            for g, a, b in self.defs:
+                if not _occurs(a, t):
+                    continue
+                if g is not None and self._check([z3.Not(g)], self.BRANCH_TIMEOUT_MS) != z3.unsat:
+                    continue
+                t = z3.substitute(t, (a, b))
+                changed = True
+            if not changed:
+                break
+        return t
+
+    def _seq_parts(self, t):
+        """flatten a Seq term into parts, resolving If parts by forking on their condition"""
+        out = []
+        stack = [t]
+        while stack:
+            x = stack.pop()
+            k = x.decl().kind()
+            if k == z3.Z3_OP_SEQ_CONCAT:
+                stack.extend(reversed(x.children()))
+            elif k == z3.Z3_OP_SEQ_EMPTY:
+                continue
+            elif k == z3.Z3_OP_ITE:
+                if self.branch(x.arg(0), "spec-case"):
+                    stack.append(x.arg(1))
+                else:
+                    stack.append(x.arg(2))
+            else:
+                out.append(x)
+        return out
+
+    def prove_inv(self, oid, f, detail=""):
+        if z3.is_eq(f) and z3.is_seq(f.arg(0)) and not z3.is_string(f.arg(0)):
+            return self.prove_eq(oid, f.arg(0), f.arg(1), detail)
+        return self.prove(oid, f, detail)
+
+    def prove_eq(self, oid, a, b, detail=""):
+        """
+        Prove a == b.  Sequence equalities are decomposed structurally (common
+        prefix/suffix cancelled, unit elements compared field by field) so that a
+        wrong implementation yields a small refutable obligation with a model
+        instead of an undecided sequence query.
+        """
+        if not z3.is_seq(a) or z3.is_string(a):
+            return self.prove(oid, a == b, detail)
+        a2, b2 = self.expand_defs(a), self.expand_defs(b)
+        pa, pb = self._seq_parts(z3.simplify(a2)), self._seq_parts(z3.simplify(b2))
+        while pa and pb and pa[0].eq(pb[0]):
+            pa.pop(0), pb.pop(0)
+        while pa and pb and pa[-1].eq(pb[-1]):
+            pa.pop(), pb.pop()
+        if not pa and not pb:
+            self.obligations.append(Obligation(oid, "discharged", detail or "structurally equal after unfolding", 0.0,
+                                               "/".join(l for _, l in self.decisions)))
+            return True
+        units = lambda ps: all(p.decl().kind() == z3.Z3_OP_SEQ_UNIT for p in ps)
+        if units(pa) and units(pb):
+            if len(pa) != len(pb):
+                return self.prove(oid, z3.BoolVal(False), (detail + " " if detail else "") +
+                                  f"the code produced {len(pa)} element(s) where the contract prescribes {len(pb)}")
+            ok = True
+            for j, (x, y) in enumerate(zip(pa, pb)):
+                ex_, ey_ = x.arg(0), y.arg(0)
+                ok &= self._prove_elem_eq(oid if len(pa) == 1 else f"{oid}[{j}]", ex_, ey_, detail)
+            return ok
+        same_fn = lambda x, y: (x.decl().kind() == z3.Z3_OP_UNINTERPRETED and x.num_args() > 0 and x.decl().eq(y.decl()))
+        if len(pa) == len(pb) and pa and all(same_fn(x, y) for x, y in zip(pa, pb)):
+            # both sides apply the same (uninterpreted) spec function: equal arguments suffice, and with the
+            # function uninterpreted nothing else can make them equal
+            ok = True
+            for j, (x, y) in enumerate(zip(pa, pb)):
+                for k in range(x.num_args()):
+                    if x.arg(k).eq(y.arg(k)):
+                        continue
+                    ok &= self._prove_elem_eq(f"{oid}.{x.decl().name()}.arg{k}", x.arg(k), y.arg(k), detail)
+            return ok
+        return self.prove(oid, a == b, detail)
+
+    def _prove_elem_eq(self, oid, x, y, detail):
+        srt = x.sort()
+        if isinstance(srt, z3.DatatypeSortRef) and srt.num_constructors() == 1 and srt.constructor(0).arity() > 0:
+            ok = True
+            for k in range(srt.constructor(0).arity()):
+                acc = srt.accessor(0, k)
+                fx, fy = z3.simplify(acc(x)), z3.simplify(acc(y))
+                nm = acc.name().split("_", 1)[-1]
+                ok &= self._prove_elem_eq(f"{oid}.{nm}", fx, fy, detail)
+            return ok
+        return self.prove(oid, x == y, detail)
+
+    def _model_of(self, m):
+        out = {}
+        for name, v in self.input_vars.items():
+            try:
+                out[name] = self.model_value(m, v)
+            except Exception as e:  # pragma: no cover
+                out[name] = f"<{type(e).__name__}: {e}>"
+        return out
 
     def _extract_model(self, neg):
         self.solver.set("timeout", self.VC_TIMEOUT_MS)
@@ -1138,7 +1289,8 @@ class Ex:
             return NTVal.of_term(ty.cls, v.t)
         return v
 
-    def _check_frame(self, log, spec, fr, pre_locals, key):
+    def _check_frame(self, log, spec, fr, pre_locals, key, born=None):
+        born = log if born is None else born
         ok_locals = {getattr(sl, "local", None) for sl in spec.slots}
         for w in log:
             if w[0] == "local":
@@ -1150,7 +1302,7 @@ class Ex:
                     raise Unsupported(f"loop {key} yields but its declared state has no yield slot")
             elif w[0] == "field":
                 _, obj, field = w
-                if getattr(obj, "_born", None) is log:
+                if getattr(obj, "_born", None) is not None and born.owns(obj._born):
                     continue
                 hit = False
                 for sl in spec.slots:
@@ -1173,9 +1325,9 @@ class Ex:
         zero = z3.IntVal(0)
         if spec.using:
             for u in spec.using(self, fr, zero, vals0):
-                self.assume(u, "definitional unfolding")
+                self.assume_def(u)
         for lab, f in spec.inv(self, fr, zero, vals0):
-            self.prove(f"{name}:inv-init:{lab}", f)
+            self.prove_inv(f"{name}:inv-init:{lab}", f)
         # 2. arbitrary iteration or exit
         which = self.choose([(f"{name}:iter", z3.BoolVal(True)), (f"{name}:exit", z3.BoolVal(True))])
         pre_locals = set(fr.locals)
@@ -1185,17 +1337,17 @@ class Ex:
             vals = self._havoc(spec, fr, "i")
             if spec.using:
                 for u in spec.using(self, fr, i, vals):
-                    self.assume(u, "definitional unfolding")
+                    self.assume_def(u)
             for lab, f in spec.inv(self, fr, i, vals):
                 self.assume(f)
+                self._note_var_def(f)
             if it.facts:
                 for f in it.facts(self, i):
                     self.assume(f)
             x = it.at(self, i)
             outer = self.writes
-            log = []
+            log = WriteLog()
             self.writes = log
-            self._born_log = log
             ended = "fall"
             try:
                 self.assign(s.target, x, fr)
@@ -1208,9 +1360,9 @@ class Ex:
             finally:
                 self.writes = outer
                 if outer is not None:
-                    outer.extend(log)
+                    outer.merge(log)
             tgt_names = {n_.id for n_ in ast.walk(s.target) if isinstance(n_, ast.Name)}
-            self._check_frame([w for w in log if not (w[0] == "local" and w[2] in tgt_names)], spec, fr, pre_locals, key)
+            self._check_frame([w for w in log if not (w[0] == "local" and w[2] in tgt_names)], spec, fr, pre_locals, key, born=log)
             if ended == "break":
                 # continue after the loop with the state at the break (no else clause)
                 for nm in list(fr.locals):
@@ -1221,18 +1373,19 @@ class Ex:
             i1 = i + 1
             if spec.using:
                 for u in spec.using(self, fr, i1, vals1):
-                    self.assume(u, "definitional unfolding")
+                    self.assume_def(u)
             for lab, f in spec.inv(self, fr, i1, vals1):
-                self.prove(f"{name}:inv-keep:{lab}", f)
+                self.prove_inv(f"{name}:inv-keep:{lab}", f)
             self.cover(f"{name}:iter")
             raise PathAbort("loop iteration verified")
         else:
             vals = self._havoc(spec, fr, "n")
             if spec.using:
                 for u in spec.using(self, fr, n, vals):
-                    self.assume(u, "definitional unfolding")
+                    self.assume_def(u)
             for lab, f in spec.inv(self, fr, n, vals):
                 self.assume(f)
+                self._note_var_def(f)
             # loop-local temporaries are undefined after the loop
             self.cover(f"{name}:exit")
             self.exec_block(s.orelse, fr)
@@ -1244,9 +1397,9 @@ class Ex:
         k0 = z3.IntVal(0)
         if spec.using:
             for u in spec.using(self, fr, k0, vals0):
-                self.assume(u, "definitional unfolding")
+                self.assume_def(u)
         for lab, f in spec.inv(self, fr, k0, vals0):
-            self.prove(f"{name}:inv-init:{lab}", f)
+            self.prove_inv(f"{name}:inv-init:{lab}", f)
         which = self.choose([(f"{name}:iter", z3.BoolVal(True)), (f"{name}:exit", z3.BoolVal(True))])
         pre_locals = set(fr.locals)
         k = fresh(INT, "k").t
@@ -1254,15 +1407,16 @@ class Ex:
         vals = self._havoc(spec, fr, "k")
         if spec.using:
             for u in spec.using(self, fr, k, vals):
-                self.assume(u, "definitional unfolding")
+                self.assume_def(u)
         for lab, f in spec.inv(self, fr, k, vals):
             self.assume(f)
+            self._note_var_def(f)
         c = self.eval(s.test, fr)
         tv = self.truthy(c)
         if which == 0:
             self.assume(self._z(tv))
             outer = self.writes
-            log = []
+            log = WriteLog()
             self.writes = log
             ended = "fall"
             try:
@@ -1275,16 +1429,16 @@ class Ex:
             finally:
                 self.writes = outer
                 if outer is not None:
-                    outer.extend(log)
+                    outer.merge(log)
             self._check_frame(log, spec, fr, pre_locals, key)
             if ended == "break":
                 return
             vals1 = self._loop_state(spec, fr)
             if spec.using:
                 for u in spec.using(self, fr, k + 1, vals1):
-                    self.assume(u, "definitional unfolding")
+                    self.assume_def(u)
             for lab, f in spec.inv(self, fr, k + 1, vals1):
-                self.prove(f"{name}:inv-keep:{lab}", f)
+                self.prove_inv(f"{name}:inv-keep:{lab}", f)
             self.cover(f"{name}:iter")
             raise PathAbort("loop iteration verified")
         else:
@@ -1839,6 +1993,55 @@ def sym_pytype(ty):
     if k == "abs" and ty.pycls is not None:
         return ty.pycls
     raise Unsupported(f"python type of {ty}")
+
+
+def _symbols(t, acc=None):
+    acc = set() if acc is None else acc
+    seen = set()
+    stack = [t]
+    while stack:
+        x = stack.pop()
+        if x.get_id() in seen:
+            continue
+        seen.add(x.get_id())
+        if z3.is_app(x) and x.decl().kind() == z3.Z3_OP_UNINTERPRETED:
+            acc.add(x.decl().name())
+        stack.extend(x.children())
+    return acc
+
+
+def _slice(assertions, goal):
+    """cone of influence: the assertions that (transitively) share an uninterpreted symbol with the goal"""
+    syms = _symbols(goal)
+    rest = [(a, _symbols(a)) for a in assertions]
+    chosen = []
+    changed = True
+    while changed:
+        changed = False
+        keep = []
+        for a, sy in rest:
+            if sy & syms:
+                chosen.append(a)
+                syms |= sy
+                changed = True
+            else:
+                keep.append((a, sy))
+        rest = keep
+    return chosen
+
+
+def _occurs(a, t):
+    seen = set()
+    stack = [t]
+    while stack:
+        x = stack.pop()
+        if x.get_id() in seen:
+            continue
+        seen.add(x.get_id())
+        if x.eq(a):
+            return True
+        stack.extend(x.children())
+    return False
 
 
 def _load(t):
